@@ -19,12 +19,15 @@ from engine import flogen
 from engine.flogen import LOG, CLOCKS
 
 PROPERTY = "C11"
-ENGINE = "E1"
+ENGINE = "E1+E2"
 FUNCTIONS = ["ioflo.base.framing.Framer.restartTimer/updateTimer/updateElapsed/restartCounter/updateCounter/updateRecurred/segue/enter",
              "ioflo.base.building.Builder.buildTimeout/buildRepeat/makeFramerNeed", "ioflo.base.needing.Need (framer elapsed/recurred needs)",
              "ioflo.base.acting.Transiter.action"]
 ASSUMPTIONS = [
-    "exact-time regime: store time, tick period, timeout are integers (time unit arbitrary); IEEE rounding of decimal periods (0.1 ...) is outside the claim",
+    "E1, exact-time regime: store time, tick period, timeout are integers (time unit arbitrary)",
+    "E2, doubles: Framer.restartTimer/updateTimer translated from source to FP(11,53): after a restart at s0 the elapsed value at evaluations s1 <= s2 "
+    "is exactly fl(s_i - s0) for all finite doubles in [0,1e6] (one subtraction from the change time, no accumulation); how a decimal tick period itself "
+    "accumulates in the store time belongs to the scheduler (C02)",
     "store stamp assigned directly (store.stamp = k*P); framer driven through its real generator with START then RUN",
     "symbolic: T in [0,8], N in [0,4], x per tick in [0,1], P in [1,4] (one shard per P for the indirect goals); literal verbs `timeout T` / `repeat N` on the grid T in {0,1,2,3,5}, N in {0,1,2,3}",
     "program: top > a,b,c ; a: go a if x >= 1 ; a -> b on elapsed >= T ; b -> c on recurred >= N ; c -> a if x >= 1",
@@ -132,4 +135,138 @@ def obligations(tier):
     for nn in ng:
         out.append(Ob("clocks/literal-repeat-%d" % nn, h, dict(ticks=ticks, tlit=None, nlit=nn), budget=600 if tier == "quick" else 1800,
                       covers=["repeat-fired"], bounds=dict(ticks=ticks, P="[1,4]", T="[0,10]", N=nn)))
+    return out
+
+
+# ---- E2: the clock arithmetic in doubles -------------------------------------------------------------
+# In the integer regime an implementation that ACCUMULATES elapsed (elapsed += now - last; last = now) is
+# indistinguishable from elapsed = now - start; with decimal tick periods it drifts by rounding.  The two clock
+# methods are therefore also translated to FP(11,53) from their source and checked over all doubles.
+def _fp_exec(fn, state, F, RNE):
+    """tiny symbolic executor for straight-line methods over attribute chains of `self` (FP sort).
+    Supports: assignment / augmented assignment to self.<chain>, + - *, float constants, try (body only),
+    calls self.updateElapsed()/self.updateRecurred() (store publication, no effect on the clock) -- anything
+    else raises NotImplementedError (=> the obligation is inconclusive)."""
+    import ast, inspect, textwrap, z3
+    tree = ast.parse(textwrap.dedent(inspect.getsource(fn))).body[0]
+
+    def chain(node):
+        parts = []
+        while isinstance(node, ast.Attribute):
+            parts.append(node.attr)
+            node = node.value
+        if isinstance(node, ast.Name) and node.id == "self":
+            return "self." + ".".join(reversed(parts))
+        raise NotImplementedError(ast.dump(node)[:60])
+
+    def ev(e):
+        if isinstance(e, ast.Constant) and isinstance(e.value, (int, float)):
+            return z3.FPVal(float(e.value), F)
+        if isinstance(e, ast.Attribute):
+            k = chain(e)
+            if k not in state:
+                raise NotImplementedError("read of " + k)
+            return state[k]
+        if isinstance(e, ast.BinOp):
+            a, b = ev(e.left), ev(e.right)
+            if isinstance(e.op, ast.Add):
+                return z3.fpAdd(RNE, a, b)
+            if isinstance(e.op, ast.Sub):
+                return z3.fpSub(RNE, a, b)
+            if isinstance(e.op, ast.Mult):
+                return z3.fpMul(RNE, a, b)
+        raise NotImplementedError(ast.dump(e)[:60])
+
+    def run(stmts):
+        for s in stmts:
+            if isinstance(s, ast.Expr) and isinstance(s.value, ast.Constant):
+                continue
+            if isinstance(s, ast.Assign) and len(s.targets) == 1:
+                state[chain(s.targets[0])] = ev(s.value)
+            elif isinstance(s, ast.AugAssign):
+                k = chain(s.target)
+                state[k] = ev(ast.BinOp(left=s.target, op=s.op, right=s.value))
+            elif isinstance(s, ast.Try):
+                run(s.body)
+            elif isinstance(s, ast.Expr) and isinstance(s.value, ast.Call) and isinstance(s.value.func, ast.Attribute) \
+                    and s.value.func.attr in ("updateElapsed", "updateRecurred"):
+                continue
+            else:
+                raise NotImplementedError(ast.dump(s)[:80])
+    run(tree.body)
+    return state
+
+
+def e2_clock(params):
+    import time, z3
+    from ioflo.base import framing
+    t0 = time.time()
+    F, RNE = z3.Float64(), z3.RNE()
+    s0, s1, s2, junk = z3.FP("s0", F), z3.FP("s1", F), z3.FP("s2", F), z3.FP("junk", F)
+    fin = lambda x: z3.And(z3.Not(z3.fpIsNaN(x)), z3.Not(z3.fpIsInf(x)), z3.fpGEQ(x, z3.FPVal(0.0, F)), z3.fpLEQ(x, z3.FPVal(1e6, F)))
+    try:
+        st = {"self.stamp": junk, "self.elapsed": junk, "self.store.stamp": s0}
+        _fp_exec(framing.Framer.restartTimer, st, F, RNE)
+        st["self.store.stamp"] = s1
+        _fp_exec(framing.Framer.updateTimer, st, F, RNE)
+        e1 = st["self.elapsed"]
+        st["self.store.stamp"] = s2
+        _fp_exec(framing.Framer.updateTimer, st, F, RNE)
+        e2 = st["self.elapsed"]
+    except NotImplementedError as ex:
+        return dict(paths=1, confirmed=0, unknown=1, failed=0, exhausted=False, fails={}, samples=[], solver_checks=0, solver_time=0,
+                    extra="clock methods not translatable: %s" % ex)
+    s = z3.Solver()
+    s.set("timeout", 120000)
+    s.add(fin(s0), fin(s1), fin(s2), z3.fpLEQ(s0, s1), z3.fpLEQ(s1, s2))
+    s.add(z3.Or(z3.Not(z3.fpEQ(e1, z3.fpSub(RNE, s1, s0))), z3.Not(z3.fpEQ(e2, z3.fpSub(RNE, s2, s0)))))
+    t = time.time()
+    r = str(s.check())
+    dt = time.time() - t
+    fails = {}
+    if r == "sat":
+        m = s.model()
+        val = lambda x: float(m.eval(z3.fpToReal(x), model_completion=True).as_fraction())
+        fails["C11/float/elapsed-not-store-time-minus-change-time"] = dict(
+            vals=dict(s0=val(s0), s1=val(s1), s2=val(s2)), detail="elapsed after two evaluations differs from fl(now - change time)", count=1)
+    # vacuity guard: the premises are satisfiable
+    g = z3.Solver()
+    g.add(fin(s0), fin(s1), fin(s2), z3.fpLT(s0, s1), z3.fpLT(s1, s2))
+    guard = str(g.check())
+    return dict(paths=2, confirmed=1 if r == "unsat" else 0, unknown=0 if r in ("sat", "unsat") and guard == "sat" else 1,
+                failed=len(fails), exhausted=(r in ("sat", "unsat") and guard == "sat"), fails=fails,
+                samples=[dict(query="elapsed(restart at s0; evaluate at s1, s2) == fl(s_i - s0)", result=r, premises=guard)],
+                solver_checks=2, solver_time=round(dt, 3), wall=round(time.time() - t0, 2))
+
+
+def e2_clock_replay(vals, params):
+    from ioflo.base import housing, framing
+    housing.House.Clear()
+    housing.ClearRegistries()
+    house = housing.House(name="h")
+    house.assignRegistries()
+    f = framing.Framer(name="m", store=house.store)
+    st = house.store
+    st.stamp = vals["s0"]
+    f.restartTimer()
+    st.stamp = vals["s1"]
+    f.updateTimer()
+    e1 = f.elapsed
+    st.stamp = vals["s2"]
+    f.updateTimer()
+    e2 = f.elapsed
+    if e1 != vals["s1"] - vals["s0"] or e2 != vals["s2"] - vals["s0"]:
+        return ("fail", "C11/float/elapsed-not-store-time-minus-change-time",
+                "change at %r, evaluations at %r, %r: elapsed %r, %r expected %r, %r" % (vals["s0"], vals["s1"], vals["s2"], e1, e2,
+                                                                                          vals["s1"] - vals["s0"], vals["s2"] - vals["s0"]))
+    return ("pass", None, "")
+
+
+_obligations_e1 = obligations
+
+
+def obligations(tier):
+    out = _obligations_e1(tier)
+    out.append(Ob("float/elapsed-is-one-subtraction", e2_clock, {}, kind="e2", replay=e2_clock_replay, budget=600,
+                  bounds=dict(doubles="finite in [0, 1e6], s0 <= s1 <= s2", evaluations=2)))
     return out
